@@ -366,12 +366,128 @@ def renest_else(ref_fn, cur_fn) -> int:
             st = blk[i]
             if isinstance(st, ast.If) and not st.orelse and st.body and isinstance(st.body[-1], (ast.Return, ast.Raise, ast.Continue, ast.Break)) and i + 1 < len(blk) and not matches(st):
                 cand = ast.If(test=st.test, body=st.body, orelse=blk[i + 1 :])
-                if matches(cand):
+                ok = matches(cand)
+                if not ok:
+                    # the reference may spell the same branch with the opposite polarity (`if c: T else: ...`): align_branches flips it afterwards.
+                    # A trailing `continue` / bare `return` at the very end of the guard body is dropped for the comparison when the if-statement is
+                    # the last statement of its block afterwards (falling off the block does the same).
+                    body2 = st.body[:-1] if isinstance(st.body[-1], ast.Continue) or (isinstance(st.body[-1], ast.Return) and st.body[-1].value is None) else None
+                    for t2 in _negations(st.test):
+                        for t3 in [t2] + _equiv_tests(t2):
+                            for b in ([st.body] + ([body2] if body2 else [])):
+                                if matches(ast.If(test=t3, body=blk[i + 1 :], orelse=b)):
+                                    ok = True
+                                    if b is body2 and _falls_off_same(cur_fn, blk, st):
+                                        st.body = body2
+                                    break
+                            if ok:
+                                break
+                        if ok:
+                            break
+                if ok:
                     st.orelse = blk[i + 1 :]
                     del blk[i + 1 :]
                     n += 1
             i -= 1
     return n
+
+
+def _falls_off_same(fn, blk, st) -> bool:
+    """True when dropping a trailing `continue` (or bare `return`) of st's body is behaviour-preserving once st (with the rest of the block as its
+    else-arm) is the last statement of `blk`: blk must be the body of a loop (for `continue`) or of the function (for `return`)."""
+    last = st.body[-1]
+    for node in ast.walk(fn):
+        if isinstance(last, ast.Continue) and isinstance(node, (ast.For, ast.While, ast.AsyncFor)) and node.body is blk:
+            return True
+        if isinstance(last, ast.Return) and isinstance(node, FuncNode) and node.body is blk:
+            return True
+    return False
+
+
+def reintroduce_temps(ref_fn, cur_fn) -> int:
+    """The reverse of inline_adjacent_temps: the reference has `v = E ; S(v)` (v read once, in the next statement) and the analysed function
+    has `S(E)` at a place where no statement equals `v = E`.  Rewriting to the reference spelling is behaviour-preserving (E is evaluated at
+    the same point: it is the first effect of S) and gives the rules the statement they look for."""
+    import copy
+
+    locals_, fixed = _core._scope_info(cur_fn)
+    ref_locals, _ = _core._scope_info(ref_fn)
+    fixed = fixed - ref_locals
+    cur_stmts = _stmts(cur_fn)
+    total = 0
+    for node in ast.walk(ref_fn):
+        for field in ("body", "orelse", "finalbody"):
+            rblk = getattr(node, field, None)
+            if not isinstance(rblk, list):
+                continue
+            for i in range(len(rblk) - 1):
+                a, st = rblk[i], rblk[i + 1]
+                if not (isinstance(a, ast.Assign) and len(a.targets) == 1 and isinstance(a.targets[0], ast.Name)):
+                    continue
+                v = a.targets[0].id
+                uses = [x for x in ast.walk(ref_fn) if isinstance(x, ast.Name) and x.id == v and isinstance(x.ctx, ast.Load)]
+                defs = [x for x in ast.walk(ref_fn) if isinstance(x, ast.Name) and x.id == v and isinstance(x.ctx, ast.Store)]
+                if len(uses) != 1 or len(defs) != 1 or isinstance(st, (FuncNode, ast.ClassDef, ast.For, ast.While, ast.With, ast.Try, ast.If)):
+                    continue
+                if not any(x is uses[0] for x in ast.walk(st)):
+                    continue
+                if any(_core._match(a, c, locals_, fixed, {}) for c in cur_stmts if isinstance(c, ast.Assign)):
+                    continue  # the analysed function has the temp already
+                existing = {x.id for x in ast.walk(cur_fn) if isinstance(x, ast.Name)} | {p.arg for p in ast.walk(cur_fn) if isinstance(p, ast.arg)}
+                if v in existing:
+                    continue
+                # find a statement of the analysed function that becomes equal to `st` when one sub-expression equal to E is replaced by v
+                for cnode in ast.walk(cur_fn):
+                    done = False
+                    for cfield in ("body", "orelse", "finalbody"):
+                        cblk = getattr(cnode, cfield, None)
+                        if not isinstance(cblk, list):
+                            continue
+                        for j, cst in enumerate(cblk):
+                            if type(cst) is not type(st) or _core._match(st, cst, locals_ | {v}, fixed, {}):
+                                continue
+                            for x in ast.walk(cst):
+                                if not isinstance(x, ast.expr) or not _core._match(a.value, x, locals_, fixed, {}):
+                                    continue
+                                if not _no_effect_before_expr(cst, x):
+                                    continue
+                                cand = copy.deepcopy(cst)
+                                # locate the copy of x by walking both trees in step
+                                pair = next((cx for ox, cx in zip(ast.walk(cst), ast.walk(cand)) if ox is x), None)
+                                if pair is None:
+                                    continue
+
+                                class Sub(ast.NodeTransformer):
+                                    def visit(self, n):
+                                        if n is pair:
+                                            return ast.copy_location(ast.Name(id=v, ctx=ast.Load()), n)
+                                        return super().visit(n)
+
+                                cand = Sub().visit(cand)
+                                ast.fix_missing_locations(cand)
+                                if _core._match(st, cand, locals_ | {v}, fixed, {}):
+                                    tmp = ast.copy_location(ast.Assign(targets=[ast.Name(id=v, ctx=ast.Store())], value=copy.deepcopy(x)), cst)
+                                    ast.fix_missing_locations(tmp)
+                                    cblk[j : j + 1] = [tmp, cand]
+                                    total += 1
+                                    done = True
+                                    break
+                            if done:
+                                break
+                        if done:
+                            break
+                    if done:
+                        break
+    return total
+
+
+def _no_effect_before_expr(stmt: ast.stmt, x: ast.expr) -> bool:
+    """No call is completed in `stmt` before the evaluation of sub-expression x starts (source order approximates evaluation order)."""
+    for n in ast.walk(stmt):
+        if isinstance(n, ast.Call) and not any(y is x for y in ast.walk(n)) and not any(y is n for y in ast.walk(x)):
+            if (n.lineno, n.col_offset) < (x.lineno, x.col_offset):
+                return False
+    return True
 
 
 _SYM_OPS = (ast.Eq, ast.NotEq, ast.Is, ast.IsNot)
@@ -426,6 +542,14 @@ def normalise_module(rel: str, tree: ast.AST) -> int:
     ref = _ref_tree(rel)
     if ref is None:
         return n
+    # undo "extract method": private helpers that the reference does not have are spliced back into their callers (sa/inline.py)
+    if os.environ.get("VERIF_NO_INLINE") != "1":
+        from .inline import inline_new_helpers
+
+        try:
+            n += inline_new_helpers(tree, ref)
+        except RecursionError:
+            pass
     ref_fns = _outer_functions(ref)
     for q, cur in _outer_functions(tree).items():
         rf = ref_fns.get(q)
@@ -436,6 +560,7 @@ def normalise_module(rel: str, tree: ast.AST) -> int:
         for _round in range(3):
             k = 0
             k += inline_adjacent_temps(rf, cur)
+            k += reintroduce_temps(rf, cur)
             k += renest_else(rf, cur)
             k += align_compares(rf, cur)
             k += align_branches(rf, cur)
